@@ -90,7 +90,8 @@ fn node_kind_of(name: &str) -> Option<&'static str> {
     })
 }
 
-const IDS: [&str; 6] = ["A", "b", "Foo", "x1", "_t", "NAME"];
+// (identifiers may begin with digits as long as a letter or '_' follows somewhere: 4foo, 4_foo, 0_ ...)
+const IDS: [&str; 12] = ["A", "b", "Foo", "x1", "_t", "NAME", "4foo", "4_foo", "0_", "32_bit", "_", "x_"];
 const INTS: [&str; 14] = ["0", "7", "42", "0x1F", "0b101", "3", "0xFFFFFFFFFFFFFFFF", "0x8000000000000000", "0xffffffff00000000", "0b1111111111111111111111111111111111111111111111111111111111111111", "9223372036854775807", "0x0", "0b0", "007"];
 const BANGS: [&str; 10] = ["!add", "!if", "!foreach", "!cast", "!strconcat", "!eq", "!size", "!listconcat", "!foldl", "!isa"];
 
@@ -100,7 +101,7 @@ fn render_terminal(t: &str, rng: &mut Rng) -> String {
         "INT" => INTS[rng.below(INTS.len())].to_string(),
         "STRING" => ["\"s\"", "\"a b\"", "\"\"", "\"a\\\\\"", "\"\\\\\"", "\"q\\\"x\"", "\"\\n\\t\"", "\"C:\\\\dir\\\\\""][rng.below(8)].to_string(),
         "CODE" => "[{ c }]".to_string(),
-        "VARNAME" => "$v".to_string(),
+        "VARNAME" => ["$v", "$_x", "$_", "$a1_b"][rng.below(4)].to_string(),
         "BANGOP" => BANGS[rng.below(BANGS.len())].to_string(),
         lit => lit.to_string(),
     }
